@@ -209,7 +209,7 @@ class Unit:
                     raise ExtractError("%s:%d: text before any directive in extract block" % (self.tmpl_path, tl))
                 cur["lines"].append((tl, d))
 
-        contract, top, loops, befores, afters = [], [], {}, [], []
+        contract, top, loops, befores, afters, cuts = [], [], {}, [], [], []
         canary = False
         for d in dirs:
             w = d["d"].split(None, 1)
@@ -280,6 +280,13 @@ class Unit:
                 befores.append((_anchor(arg), d["lines"], d["tl"]))
             elif op == "after":
                 afters.append((_anchor(arg), d["lines"], d["tl"]))
+            elif op == "cut":
+                # //@ cut `first line anchor` .. `end line anchor (exclusive)`  + replacement lines: the repository lines from
+                # the first anchor up to (not including) the end anchor are DROPPED and replaced by the sidecar lines
+                m = re.match(r"\s*`(.*?)`\s*\.\.\s*`(.*?)`\s*$", arg)
+                if not m:
+                    raise ExtractError("bad cut directive: %r" % arg)
+                cuts.append((m.group(1), m.group(2), d["lines"], d["tl"]))
             elif op == "canary":
                 canary = True
             else:
@@ -367,6 +374,19 @@ class Unit:
                 return bk
             raise ExtractError("%s: fn %s: anchor %r lost" % (rel, name, anc))
 
+        for a1, a2, lines_, tl in cuts:
+            try:
+                k1, k2 = find_anchor(a1, 0), find_anchor(a2, 0)
+            except ExtractError as e:
+                lost("cut anchors %r .. %r lost (block kept)" % (a1, a2))
+                continue
+            if k2 <= k1:
+                lost("cut anchors %r .. %r out of order" % (a1, a2))
+                continue
+            self.count("cut:%s..%s" % (a1, a2), k2 - k1)
+            self.report.setdefault("cuts", []).append({"fn": name, "from": a1, "to": a2, "dropped_lines": k2 - k1,
+                                                       "text": [rows[k][0] for k in range(k1, k2)]})
+            rows[k1:k2] = [[x, ("sidecar", l)] for l, x in lines_]
         for (anc, nth), lines_, tl in befores:
             try:
                 k = find_anchor(anc, nth)
